@@ -17,7 +17,12 @@ RULE = (
 
 
 def profile(tier):
-    return strategies.profile(shape="history_get", max_faults=0, timeouts=[10, 10, 0.5, None, 1e-3], max_ops=9)
+    return strategies.profile(shape="history_get", max_faults=0, timeouts=[10, 10, 0.5, None, 1e-3], max_ops=9, cbget=True)
+
+
+def sweep_profile(tier):
+    return strategies.profile(shape="history_get", max_faults=0, timeouts=[10, None, 0.5], max_ops=4, max_workers=2, cbget=True,
+                              schedule_kinds=["default"])
 
 
 def race(tier):
@@ -25,7 +30,7 @@ def race(tier):
 
 
 def _is_race(H):
-    return len(H.case["program"]) >= 2
+    return sum(1 for ops in H.case["program"] if any(op[0] == "get" for op in ops)) >= 2
 
 
 def nontrivial(H):
@@ -46,8 +51,9 @@ def oracle(H):
     v = oracles.c09(H)
     if _is_race(H):
         v += oracles.c09_work(H)
-    v += [x for x in oracles.liveness(H) if x["kind"] in ("livelock", "api_hang") and "get" in str(x.get("detail"))]
+    v += oracles.liveness(H)       # incl. the probe task submitted on the returned instance: it must complete
     return v
 
 
+SWEEP = (8, 100)
 install(globals(), ID, 3500, 40000, profiles=[("profile", 0.6), ("race", 0.4)])
